@@ -145,17 +145,18 @@ theorem call_exec {ctx : Ctx} {T : List FEntry} {B : Nat} (hT : TableOK T) (hctx
     exact hsuf.subset (hsT.subset this)
   have hlk : lookupFun m1.funs e.fd.name = some e.body := by rw [hmf]; exact lookup_sh Tr e hnd heTr
   have hex : expandList m1.ρ ts = some (vals.map Val.render) := expandList_holds hi.agree hh hr
-  obtain ⟨m2, o', ex, hor, hag, hcf2, hmf2, hrv, hfr, hsv⟩ :=
+  obtain ⟨m2, o', ex, hor, hout, hrest'⟩ :=
     hbs Tr c1 m1 vals fuel o c2 (hsT.trans hsuf) hnd hcf hmf hi.agree.toG hlen hb
-  -- what `restore` leaves alone
-  have hrest : ∀ x, (∀ a, x ≠ fnPrefix e.j ++ a) → restore m2.saved m2.ρ x = m2.ρ x := by
-    intro x hx
-    apply restore_other
-    intro p hp e'
-    obtain ⟨a, ha⟩ := hsv p hp
-    exact hx a (by rw [← e', ha])
   constructor
   · intro vs hvs
+    obtain ⟨hag, hcf2, hmf2, hrv, hfr, hsv⟩ := hrest' (fun k e' => by rcases hvs with h | ⟨h, _⟩ <;> (rw [h] at e'; cases e'))
+    -- what `restore` leaves alone
+    have hrest : ∀ x, (∀ a, x ≠ fnPrefix e.j ++ a) → restore m2.saved m2.ρ x = m2.ρ x := by
+      intro x hx
+      apply restore_other
+      intro p hp e'
+      obtain ⟨a, ha⟩ := hsv p hp
+      exact hx a (by rw [← e', ha])
     have ho' : o' = .normal ∨ o' = .ret := by
       rcases hvs with rfl | ⟨rfl, _⟩
       · cases o' <;> simp [OutRel] at hor ⊢
@@ -192,6 +193,6 @@ theorem call_exec {ctx : Ctx} {T : List FEntry} {B : Nat} (hT : TableOK T) (hctx
     subst hk
     have ho' : o' = .exit k := by cases o' <;> simp [OutRel] at hor ⊢; exact hor.symm
     subst ho'
-    exact ⟨m2, ExecCmd.call hlk hex ex rfl, hag.out⟩
+    exact ⟨m2, ExecCmd.call hlk hex ex rfl, hout⟩
 
 end Tsh.Sem2
